@@ -2,6 +2,7 @@ mod common;
 mod model;
 mod props_algebra;
 mod props_lang;
+mod props_partition;
 mod props_query;
 mod space;
 
@@ -26,6 +27,8 @@ fn replay(prop: &str, file: &str) -> i32 {
             "exhaustive" => props_query::replay_exhaustive(&case),
             "family" => props_algebra::replay_family(&case),
             "lang" => props_lang::replay_lang(&case),
+            "partition" => props_partition::replay_partition(&case),
+            "escape" => props_partition::replay_escape(&case),
             "depth" => props_query::replay_depth(&case),
             "text-other" | "text-self" | "text-cased" => props_query::replay_text(&case),
             "root" | "root-sometimes" | "semantic" => props_query::replay_root(&case),
@@ -105,6 +108,8 @@ fn main() {
     let code = match prop.as_str() {
         "C01" => props_lang::c01(tier),
         "C07" => props_algebra::c07(tier),
+        "C08" => props_partition::c08(tier),
+        "C18" => props_partition::c18(tier),
         "C09" => props_query::c09(tier),
         "C10" => props_query::c10(tier),
         "C11" => props_query::c11(tier),
